@@ -35,6 +35,7 @@ CONSTANTS
   ArithOps, CmpOps, SetOps,  \* binary operators
   MatchSets,     \* label sets usable in on()/ignoring()
   GroupIncs,     \* label sets usable in group_left()/group_right(); {} switches grouping off
+  Fixes,         \* which repairs proposed under /verif/fixes the analysed tree contains: subset of {"F6", "F12"}
   DBSeries,      \* bound on the number of series per metric in a database
   DBA, DBB, DBC, \* label values (besides absent) stored series may carry for a, b, c
   DBVals         \* sample values of stored series
@@ -123,10 +124,14 @@ SelLabels(e, kinds) == (IF e.ma \in kinds THEN {"a"} ELSE {}) \cup (IF e.mb \in 
 checkConditions(s, op) == IF s.cond THEN TRUE ELSE IsCmp(op)
 
 \* func canJoin(ls, rs Source, vm *VectorMatching) bool
+\* (fix F6: labels listed in ignoring(...) take no part in matching and are skipped)
 canJoin(ls, rs, on, ml) ==
   IF on /\ ml = {} THEN TRUE
   ELSE IF on THEN \A nm \in ml : ~(CanHaveLabel(ls, nm) /\ ~CanHaveLabel(rs, nm))
-  ELSE \A nm \in ls.gua : ~(CanHaveLabel(ls, nm) /\ ~CanHaveLabel(rs, nm))
+  ELSE \A nm \in (IF "F6" \in Fixes THEN ls.gua \ ml ELSE ls.gua) : ~(CanHaveLabel(ls, nm) /\ ~CanHaveLabel(rs, nm))
+\* (fix F12) func joinSide(orig, s, vm): with on(...) the listed labels are force-included on the result, so the
+\* source as it was before that is the one canJoin must look at
+joinSide(orig, s, on) == IF "F12" \in Fixes /\ on THEN orig ELSE s
 
 ArithV(op, x, y) == IF x = NaN \/ y = NaN THEN NaN
                     ELSE CASE op = "+" -> x + y [] op = "-" -> x - y [] op = "*" -> x * y
@@ -205,9 +210,9 @@ parseBinOps(e, path) ==
       rhs == walkNode(e.r, path \o "r")
       on  == e.vm = "on"
       vv  == Ty(e.l) = "v" /\ Ty(e.r) = "v"
-      joinAll(s, others) ==   \* for _, rs := range rhs { if !canJoin {rs.IsDead = true}; s.Joins = append(s.Joins, rs) }
+      joinAll(orig, s, others) ==   \* for _, rs := range rhs { if !canJoin {rs.IsDead = true}; s.Joins = append(s.Joins, rs) }
         [s EXCEPT !.joins = @ \o SeqMap(others, LAMBDA o :
-            IF canJoin(s, o, on, e.ls) THEN o ELSE markDead(o, "join", path))]
+            IF canJoin(joinSide(orig, s, on), o, on, e.ls) THEN o ELSE markDead(o, "join", path))]
   IN
   CASE ~vv ->    \* n.VectorMatching == nil
          SeqCross(lhs, rhs, LAMBDA ls0, rs0 :
@@ -225,25 +230,25 @@ parseBinOps(e, path) ==
                               fold(s, i) == IF i > Len(rhs) THEN s
                                             ELSE fold(applyStatic(s, s, [rhs[i] EXCEPT !.cond = checkConditions(rhs[i], e.op)], e.op, path), i + 1)
                           IN fold(excludeLabel(s0, e.ls), 1)
-               s2 == joinAll(s1, rhs)
+               s2 == joinAll(s0, s1, rhs)
            IN [s2 EXCEPT !.cond = checkConditions(s2, e.op)])
     [] vv /\ ~IsSet(e.op) /\ e.grp = "right" ->   \* CardOneToMany: labels come from the right hand side
          SeqMap(rhs, LAMBDA s0 :
            LET s1 == includeLabel(s0, e.inc)
                s2 == IF on THEN includeLabel(s1, e.ls) ELSE s1
-               s3 == joinAll(s2, lhs)
+               s3 == joinAll(s0, s2, lhs)
            IN [s3 EXCEPT !.cond = checkConditions(s3, e.op)])
     [] vv /\ ~IsSet(e.op) /\ e.grp = "left" ->    \* CardManyToOne
          SeqMap(lhs, LAMBDA s0 :
            LET s1 == includeLabel(s0, e.inc)
                s2 == IF on THEN includeLabel(s1, e.ls) ELSE s1
-               s3 == joinAll(s2, rhs)
+               s3 == joinAll(s0, s2, rhs)
            IN [s3 EXCEPT !.cond = checkConditions(s3, e.op)])
     [] vv /\ IsSet(e.op) ->                        \* CardManyToMany
          LET doLhs(s0) ==
                LET s1 == IF on THEN includeLabel(s0, e.ls) ELSE s0
                    rhsConditional == \E i \in 1..Len(rhs) : rhs[i].cond
-                   flagged == SeqMap(rhs, LAMBDA o : IF canJoin(s1, o, on, e.ls) THEN o ELSE markDead(o, "join", path))
+                   flagged == SeqMap(rhs, LAMBDA o : IF canJoin(joinSide(s0, s1, on), o, on, e.ls) THEN o ELSE markDead(o, "join", path))
                    s2 == CASE e.op = "unless" ->
                                 LET killed == on /\ e.ls = {} /\ \E i \in 1..Len(rhs) : rhs[i].always /\ ~rhs[i].cond
                                     a == IF killed THEN markDead(s1, "unless", path) ELSE s1
